@@ -32,7 +32,7 @@ func (api *HTTP) handleDeleteSession(w http.ResponseWriter, r *http.Request, ses
 	msg := &robust.Message{
 		Session: session,
 		Type:    robust.DeleteSession,
-		Data:    req.Quitmessage,
+		Data:    firstLine(req.Quitmessage),
 	}
 	if err := api.applyMessageWait(msg, 10*time.Second); err != nil {
 		if err == raft.ErrNotLeader {
